@@ -320,6 +320,14 @@ func (s *Stream) close() error {
 			if s.session.IsClosed() {
 				return nil
 			}
+			if s.inFallbackState {
+				// this stream's data travels on the connection (sticky fallback), so the close notification has to
+				// follow it there: sent through the queue it could be consumed before the data was read.
+				var streamCloseEvent [headerSize + 4]byte
+				header(streamCloseEvent[:]).encode(headerSize+4, s.session.communicationVersion, typeStreamClose)
+				binary.BigEndian.PutUint32(streamCloseEvent[headerSize:], s.id)
+				return s.session.waitForSend(nil, streamCloseEvent[:])
+			}
 			// notify peer
 			err := s.session.sendQueue().put(queueElement{seqID: s.id, status: uint32(streamClosed)})
 			if err != nil {
